@@ -153,7 +153,7 @@ def build_coq(pid, log):
     thms = re.findall(r"^\s*(?:Theorem|Lemma|Corollary|Example)\s+(\w+)", psrc, re.M)
     res["theorems"] = thms
     res["obligations"] = len(thms)
-    bad_close = [t for t in re.findall(r"(?:Theorem|Lemma|Corollary)\s+(\w+)(?:(?!Qed\.).)*?Proof\.((?:(?!Qed\.).)*?)Qed\.", psrc, re.S)
+    bad_close = [t for t in re.findall(r"(?:Theorem|Lemma|Corollary)\s+(\w+)(?:(?!Qed\.).)*?(?<![\w.])Proof\.(?=\s)((?:(?!Qed\.).)*?)Qed\.", psrc, re.S)
                  if not re.fullmatch(r"\s*exact\s+[\w\.@() ]+\.\s*", t[1])]
     if bad_close:
         res["broken"].append("Properties/%s.v: theorems not closed by `exact`: %s" % (pid, [t[0] for t in bad_close]))
